@@ -8,6 +8,7 @@ package wm
 import (
 	"encoding/json"
 	"fmt"
+	"os"
 	"sort"
 	"strings"
 
@@ -359,6 +360,24 @@ func (w *check) Replay(data json.RawMessage) (*api.Violation, error) {
 		return nil, nil
 	}
 	return &api.Violation{Property: w.id, Class: class + "@" + c.Cfg.V.String(), Detail: detail, Replay: data}, nil
+}
+
+// Explain tells which open known finding explains a replayed violation.
+func (w *check) Explain(data json.RawMessage) (string, error) {
+	c, err := decodeCase(data)
+	if err != nil {
+		return "", err
+	}
+	class, _, st := w.judge(w, c)
+	if class == "" || class == core.OK {
+		return "", nil
+	}
+	id := matchTrigger(w.id, findings.Default(), c, class, st.verdict)
+	if os.Getenv("VERIF_DEBUG_KF") != "" {
+		f := featuresOf(c)
+		fmt.Fprintf(os.Stderr, "class=%s verdict=%+v\nconflict=%+v\nshadow=%+v\nslow=%+v\nwar=%+v\nring=%+v\n", class, st.verdict, f.tConflict, f.tShadow, f.tSlowWaw, f.tWar, f.tRing)
+	}
+	return id, nil
 }
 
 // traceSig is the distinctness signature of an executed path: the sequence of
